@@ -185,7 +185,7 @@ def shuffled(obj, rng):
 
 
 def eval_expr(expr: str) -> list:
-    return np.asarray(eval(expr, {"__builtins__": {}}, {"numpy": np})).tolist()  # noqa: S307 - oracle: numpy itself
+    return np.asarray(eval(expr, {"numpy": np})).tolist()  # noqa: S307 - oracle: numpy itself, harness-generated text
 
 
 def resolve_func(name: str):
